@@ -15,7 +15,7 @@ MAP_TRACED = ("/tracklib/algo/mapping.py", "/tracklib/algo/dynamics.py")
 C06_OPS = ("dist", "dist_all", "all_pairs", "prepare", "prepared")
 C07_OPS = ("path", "path_multi", "forward", "backward")
 C10_OPS = ("map", "remap", "map_span")
-OTHER_OPS = ("add_edge", "reload", "index", "simplify", "sub_network", "set_weight", "save_prep", "load_prep", "rescale", "abs_again", "set_routing", "save_index", "load_index")
+OTHER_OPS = ("add_edge", "reload", "index", "simplify", "sub_network", "set_weight", "save_prep", "load_prep", "rescale", "abs_again", "set_routing", "save_index", "load_index", "break_weight", "inspect_edge")
 
 
 def _wchoice(r, pairs):
@@ -231,7 +231,9 @@ class NetWorld(World):
                 if got != [e["s"], e["t"], e["o"]]:
                     return self.fail("C06", "network.structure", "end nodes / orientation of edge %s (session %d)"
                                      % (e["id"], s), [e["s"], e["t"], e["o"]], got)
-                if not self._deq(m, ed.weight, e["w"]):
+                if m.get("broken") is not None and m["edges"][m["broken"]]["id"] == e["id"]:
+                    pass
+                elif not self._deq(m, ed.weight, e["w"]):
                     return self.fail("C06", "network.structure", "weight of edge %s (session %d)" % (e["id"], s),
                                      e["w"], ed.weight)
                 pts = [[o.position.getX(), o.position.getY()] for o in ed.geom]
@@ -310,12 +312,21 @@ class NetWorld(World):
             return self._g_add_edge(r, s, m)
         fam = _wchoice(r, [(k, w) for k, w in self.cfg["fam"].items() if w])
         if fam == "grow":
-            if r.random() < 0.04 and not self.cfg["road"]:
+            if r.random() < 0.04:
                 return {"op": "simplify", "s": s, "tol": r.choice([0.5, 2.0, 5.0])}
+            if self.cfg["road"] and not m["all_abs"] and r.random() < 0.5:
+                return {"op": "abs_again", "s": s, "twice": False}
             if r.random() < self.cfg.get("routing", 0):
                 k = r.choice(["astar", "astar", "dijkstra", "dijkstra", "unknown"])
                 return {"op": "set_routing", "s": s, "mode": k, "wgt": r.choice([0, 0.5, 1, 2]),
                         "value": r.choice(["ROUTING_ALGO_ASTAR", "astar", 7, None])}
+            if m.get("broken") is not None and r.random() < 0.5:
+                return {"op": "set_weight", "s": s, "e": m["broken"], "w": r.choice([0.5, 1, 2, 3])}
+            if r.random() < self.cfg.get("reweigh", 0) * 0.3 and not self.cfg["road"] and m.get("broken") is None:
+                return {"op": "break_weight", "s": s, "e": r.randrange(64)}
+            if r.random() < 0.05:
+                return {"op": "inspect_edge", "s": s, "e": r.randrange(64),
+                        "how": r.choice(["constraint", "wkt", "length", "bbox", "copy", "noise", "simplify", "tail"])}
             u = r.random()
             if u < self.cfg.get("reweigh", 0) and not self.cfg["road"]:
                 return {"op": "set_weight", "s": s, "e": r.randrange(64),
@@ -349,7 +360,7 @@ class NetWorld(World):
             op = r.choice(C06_OPS)
             if op == "dist":
                 return {"op": "dist", "s": s, "a": r.randrange(64), "b": r.randrange(64),
-                        "as_node": r.random() < 0.2}
+                        "as_node": r.choice([False, False, False, True, "foreign"])}
             if op == "dist_all":
                 return {"op": "dist_all", "s": s, "a": r.randrange(64)}
             if op == "all_pairs":
@@ -526,7 +537,7 @@ class NetWorld(World):
         """Session whose answers are judged: its network routes with Dijkstra.  In A* mode
         (documented as approximate) the same call is made and recorded, nothing is judged."""
         net, m = self._sess(st)
-        if m.get("astar"):
+        if m.get("astar") or m.get("broken") is not None:
             self._unjudged(st, net, m)
             raise Skip()
         return net, m
@@ -573,7 +584,16 @@ class NetWorld(World):
         e.orientation = st["o"]
         w = st["w"] if st["w"] is not None else geom.length() * st.get("wf", 1.0)
         e.weight = w
-        _, exc = self.call(net.addEdge, e, Node(a, ENUCoords(pa[0], pa[1], 0)), Node(b, ENUCoords(pb[0], pb[1], 0)))
+        na, nb = Node(a, ENUCoords(pa[0], pa[1], 0)), Node(b, ENUCoords(pb[0], pb[1], 0))
+        if (self.ecount + len(m["edges"])) % 4 == 0:
+            # junctions declared first, roads afterwards (the other documented way of building a network)
+            for nd in (na, nb):
+                _, exc = self.call(net.addNode, nd)
+                if exc is not None:
+                    self.fail("C06", "addEdge.raised", "addNode raised %r" % (exc,))
+                    return "raised"
+            self.probe("junctions_declared_before_the_road")
+        _, exc = self.call(net.addEdge, e, na, nb)
         if exc is not None:
             self.fail("C06", "addEdge.raised", "addEdge raised %r" % (exc,))
             return "raised"
@@ -613,7 +633,13 @@ class NetWorld(World):
         if m.get("last_source") not in (None, a):
             self.probe("search_from_other_source_back_to_back")
         m["last_source"] = a
-        if st.get("as_node"):
+        if st.get("as_node") == "foreign":
+            # Node objects that are not the network's own (same identifiers, e.g. taken from another
+            # network over the same junctions): a node designates a junction by its identifier
+            from tracklib.core import Node, ENUCoords
+            self.probe("query_with_node_objects_of_another_network")
+            rv, exc = self.call(net.shortest_distance, Node(a, ENUCoords(0, 0, 0)), Node(b, ENUCoords(1, 1, 0)))
+        elif st.get("as_node"):
             rv, exc = self.call(net.shortest_distance, net.getNode(a), net.getNode(b))
         else:
             rv, exc = self.call(net.shortest_distance, a, b)
@@ -979,11 +1005,69 @@ class NetWorld(World):
         m["astar"] = (k == "astar")
         self.probe("a_star_selected_on_one_network" if m["astar"] else "dijkstra_selected")
 
+    def op_break_weight(self, st):
+        """The caller stores something that is not a number as a weight (None: "unknown").  From
+        now on a search that relaxes this edge fails with TypeError -- in the middle of its loop.
+        While the weight is broken, answers are recorded, not judged; once the caller has repaired
+        it (set_weight) every answer is judged again: nothing of a failed search may survive."""
+        net, m = self._sess(st)
+        if not m["edges"] or not m["exact"] or m.get("shared") or m.get("broken") is not None:
+            raise Skip()
+        k = st["e"] % len(m["edges"])
+        net.getEdge(m["edges"][k]["id"]).weight = None
+        m["broken"] = k
+        m["fw"] = None
+        self.stats["fault_fired:weight_not_a_number"] += 1
+        self.probe("search_fails_inside_its_loop_until_the_weight_is_repaired")
+
+    def op_inspect_edge(self, st):
+        """Another part of the library is handed an edge geometry of the network to look at
+        (selection constraint, WKT, length, bounding box, copy, noise, simplification, slicing).
+        None of them may edit the network: the per-step invariant compares every geometry."""
+        net, m = self._sess(st)
+        if not m["edges"]:
+            raise Skip()
+        g = net.getEdge(m["edges"][st["e"] % len(m["edges"])]["id"]).geom
+        how = st["how"]
+        if how == "constraint":
+            from tracklib.algo.selection import TrackConstraint
+            _, exc = self.call(TrackConstraint, g)
+        elif how == "wkt":
+            _, exc = self.call(g.toWKT)
+        elif how == "length":
+            _, exc = self.call(g.length)
+        elif how == "bbox":
+            _, exc = self.call(g.bbox)
+        elif how == "copy":
+            cp, exc = self.call(g.copy)
+            if exc is None:
+                for o in cp:
+                    o.position.setX(o.position.getX() + 7.0)        # the copy belongs to the caller
+        elif how == "noise":
+            import numpy
+            from tracklib.algo.stochastics import noise
+            numpy.random.seed(st["e"])
+            _, exc = self.call(noise, g, [1.0])
+        elif how == "simplify":
+            from tracklib.algo.simplification import simplify
+            _, exc = self.call(simplify, g, 1.0, 2)
+        else:
+            _, exc = self.call(g.__gt__, 1)
+        if exc is not None and not isinstance(exc, Exception):
+            return self._unexpected("C07", exc, "looking at an edge geometry (%s)" % how)
+        self.probe("edge_geometry_handed_to_another_subsystem")
+        self.observed([how, None if exc is None else type(exc).__name__])
+
     def op_set_weight(self, st):
         """The caller re-weighs an edge (public attribute): a road gets slower or faster."""
         net, m = self._sess(st)
         if not m["edges"] or not m["exact"] or m.get("shared"):
             raise Skip()            # (an extracted sub-network shares its Edge objects with the parent)
+        if m.get("broken") is not None:
+            if st["e"] % len(m["edges"]) != m["broken"]:
+                raise Skip()
+            m["broken"] = None
+            self.probe("broken_weight_repaired")
         e = m["edges"][st["e"] % len(m["edges"])]
         old = e["w"]
         net.getEdge(e["id"]).weight = st["w"]
@@ -1110,8 +1194,11 @@ class NetWorld(World):
         """computeAbsCurv once more on every edge geometry (a no-op by contract)."""
         from tracklib.algo.cinematics import computeAbsCurv
         net, m = self._sess(st)
-        if not m["edges"] or not m["all_abs"]:
+        if not m["edges"]:
             raise Skip()
+        if not m["all_abs"]:
+            self.probe("abs_curv_computed_on_simplified_geometries")
+        m["all_abs"] = True
         for e in m["edges"]:
             for _ in range(2 if st.get("twice") else 1):
                 _, exc = self.call(computeAbsCurv, net.getEdge(e["id"]).geom)
@@ -1173,7 +1260,7 @@ class NetWorld(World):
         minimum on its own graph."""
         from tracklib.core import ENUCoords
         net, m = self._sess(st)
-        if not m["edges"]:
+        if not m["edges"] or m.get("broken") is not None:
             raise Skip()
         a = self._node(m, st["a"])
         if st["mode"] == "GEOMETRIC":
